@@ -388,8 +388,10 @@ func grp05Case(w *vlog.W, a *wargs, id int, rng *rand.Rand, opts harness.Options
 				viol("group:record-missing", fmt.Sprintf("after block %d the record of group %s (first child begun at %d) cannot be read", h, g.gid, g.firstH))
 				continue
 			}
-			if g.failedAt == 0 && g.timeout > 0 && h == g.firstH+uint64(g.timeout) && info.GlobalState != model.StSuccess && !g.sawSucc {
-				// the group as a whole expires now unless it already finished
+			if g.failedAt == 0 && g.timeout > 0 && h == g.firstH+uint64(g.timeout) {
+				// the group as a whole expires now unless it already finished - decided from the accepted events alone
+				// (every declared child begun and answered by a success receipt), not from what the chain says
+				// about the group
 				allDone := true
 				for _, c := range g.children {
 					if !c.success {
